@@ -127,7 +127,9 @@ class SpatialTransform(DeviceProperty, Module, metaclass=ABCMeta):
         r"""Get grid domain of this transformation or a new transformation with the specified grid."""
         if grid is None:
             return self._grid
-        return shallow_copy(self).grid_(grid)
+        copy = shallow_copy(self)
+        copy._parameters = copy._parameters.copy()  # not shared: grid_() may replace params
+        return copy.grid_(grid)
 
     def grid_(self: TSpatialTransform, grid: Grid) -> TSpatialTransform:
         r"""Set sampling grid which defines domain and codomain of this transformation."""
@@ -482,7 +484,9 @@ class LinearTransform(SpatialTransform):
         r"""Get matrix representation of linear transformation or shallow copy with parameters set from matrix."""
         if arg is None:
             return as_homogeneous_matrix(self.tensor())
-        return shallow_copy(self).matrix_(arg)
+        copy = shallow_copy(self)
+        copy._parameters = copy._parameters.copy()  # not shared: matrix_() replaces params
+        return copy.matrix_(arg)
 
     def matrix_(self: TLinearTransform, arg: Tensor) -> TLinearTransform:
         raise NotImplementedError(f"{type(self).__name__}.matrix_()")
